@@ -121,6 +121,7 @@ char *flat_text_for(FILE *fp)
 }
 
 #include "lexer_flat.c"
+#include "lexer_globals.h" /* generated next to lexer_flat.c */
 #include "libc_models.h"
 
 static cfg_t cfg;
@@ -254,6 +255,19 @@ int main(void)
 		cfg.line = 1;
 		cfg_scan_fp_begin(&fake_fp[0]);
 		BEGIN(SC);
+		/* every scalar global that lexer.l itself defines (list generated from the current source): an
+		 * aborted parse may leave an integer in any value and a pointer either clear or naming one of the
+		 * parse's own sources; the ones with a known meaning are given their realistic state below */
+		{
+			V_IN_UINT(vin_gsel);
+#define HAVOC_I(name) { V_IN_UINT(vin_g_##name); name = (__typeof__(name))vin_g_##name; }
+#define HAVOC_P(name) { name = (vin_gsel == 1) ? (__typeof__(name))(void *)&fake_fp[0] : (vin_gsel >= 2 && vin_gsel < 2 + DEPTH && vin_gsel < 5) ? (__typeof__(name))(void *)&inc_fp[vin_gsel - 2] : 0; }
+#define HAVOC(name, kind, init) HAVOC_##kind(name)
+			FLAT_LEXER_GLOBALS(HAVOC)
+			cfg_qstring = NULL;
+			qstring_index = qstring_len = 0;
+			cfg_include_stack_ptr = 0;
+		}
 #if QS == 1
 		V_ASSUME(vin_qindex <= 32);
 		qstring_len = 32;
@@ -289,6 +303,8 @@ int main(void)
 		V_ASSERT(flat_sp == 1 && sp0 == DEPTH + 1 && cfg_yyin == &fake_fp[2], "[C08] every source of the previous parse is popped and the new one is current");
 		V_ASSERT(cfg_include_stack_ptr == 0, "[C08] no include level of an earlier parse survives into the next one");
 		V_ASSERT(n_close == DEPTH, "[C07] every included file that an aborted parse left open is closed, exactly once");
+#define FRESH(name, kind, init) V_ASSERT(name == (__typeof__(name))(init), "[C08] scanner global " #name " has its fresh-process value again when the next parse starts");
+		FLAT_LEXER_GLOBALS(FRESH)
 	}
 #endif
 	V_WITNESS("end of harness");
